@@ -1,1 +1,2 @@
+pub mod network;
 pub mod powertrain;
